@@ -912,6 +912,62 @@ fn sub_operands(_tier: Tier) -> Sub {
     )
 }
 
+/// Register operands in a context where a wrongly encoded register number is visible: every
+/// register the number could be confused with has its own initial rule and its own current rule.
+fn sub_register_context(_tier: Tier) -> Sub {
+    let regs: [u16; 14] = [0, 1, 2, 62, 63, 64, 65, 127, 128, 129, 16383, 16384, 16385, 65535];
+    let kinds = 10u64;
+    Sub::new(
+        "register-operands-in-context",
+        regs.len() as u64 * kinds * 2 * 2,
+        "register r in {0,1,2,62,63,64,65,127,128,129,16383,16384,16385,65535} x instruction {Restore, Undefined, SameValue, Offset, ValOffset, Register(r,3), Register(3,r), Expression, ValExpression, CfaRegister} x placed {after an FDE row that changed every context register, in the CIE after the context} x section kind; context = distinct Offset rules in the CIE and distinct Register rules in the FDE for {0, 1, r, r-1, r+1, r mod 64, r mod 128, r/2, 64}",
+        move |ctx, i| {
+            let mut mx = Mix(i);
+            let r = *mx.pick(&regs);
+            let k = mx.take(kinds);
+            let in_cie = mx.flag();
+            let kind = *mx.pick(&[Kind::DebugFrame, Kind::EhFrame]);
+            let mut cregs: Vec<u16> = vec![0, 1, r, r.wrapping_sub(1), r.saturating_add(1), r % 64, r % 128, r / 2, 64];
+            cregs.sort();
+            cregs.dedup();
+            let insn = match k {
+                0 => WI::Restore(r),
+                1 => WI::Undefined(r),
+                2 => WI::SameValue(r),
+                3 => WI::Offset(r, -1024),
+                4 => WI::ValOffset(r, 1024),
+                5 => WI::Register(r, 3),
+                6 => WI::Register(3, r),
+                7 => WI::Expression(r, vec![0x50]),
+                8 => WI::ValExpression(r, vec![0x91, 0x70]),
+                _ => WI::CfaRegister(r),
+            };
+            let mut c = WCie::new(if kind == Kind::EhFrame { 1 } else { 4 }, false, 8, 1, -8);
+            c.insns = vec![WI::Cfa(7, 8)];
+            for (n, &x) in cregs.iter().enumerate() {
+                c.insns.push(WI::Offset(x, -8 * (n as i32 + 1)));
+            }
+            let mut f = WFde { cie: 0, addr: 0x1000, len: 0x1000, lsda: None, insns: vec![] };
+            if in_cie {
+                c.insns.push(insn);
+                f.insns.push((1, WI::Restore(r)));
+                f.insns.push((2, WI::Restore(64)));
+            } else {
+                for (n, &x) in cregs.iter().enumerate() {
+                    f.insns.push((1, WI::Register(x, 100 + n as u16)));
+                }
+                f.insns.push((2, insn));
+            }
+            let t = WTable { cies: vec![c], fdes: vec![f] };
+            ctx.nontriv(1);
+            check_table(ctx, &t, kind, false);
+            if ctx.want_sample() && crate::glue::sample_here(i, 97) {
+                ctx.sample(render_table(&t, kind, false));
+            }
+        },
+    )
+}
+
 /// The whole factor space of the writer's types.
 fn sub_factor_sweep(_tier: Tier) -> Sub {
     Sub::new(
@@ -1013,7 +1069,7 @@ pub fn def(_cli_tier: Tier) -> CheckDef {
             "padding clause: (size of the initial length field, 4 or 12) + length is a multiple of the address size (DWARF 5 6.4.1)".into(),
         ],
         subs: {
-            let mut v = vec![sub_cie_params(tier), sub_eh_pointers(tier), sub_ra(tier), sub_sequences(tier), sub_advance(tier), sub_operands(tier), sub_factor_sweep(tier), sub_dedup(tier)];
+            let mut v = vec![sub_cie_params(tier), sub_eh_pointers(tier), sub_ra(tier), sub_sequences(tier), sub_advance(tier), sub_operands(tier), sub_register_context(tier), sub_factor_sweep(tier), sub_dedup(tier)];
             if mcx::deep() {
                 v.push(sub_sequences_len4_core());
             }
